@@ -9,6 +9,7 @@ from sim.core import Violation
 from sim.snap import norm, norm_list, snap_index, first_diff, arr_cells
 from worlds.base import SimulatedFailure, enc, dec, call
 from worlds.gmodel import IxM, is_go, unhashable, expected_index_snap, learn_index, is_tree_order
+from worlds.grow_index import raw_duplicates
 
 LEVEL_POOLS = {
     'str': ['a', 'b', 'c', 'd'],
@@ -921,7 +922,13 @@ class HierOps:
             if vals != exp:
                 fail(o, f'values {vals!r:.300} != {exp!r:.300}')
             if len(set(vals)) != len(vals):
-                fail('C02.unique', f'duplicate labels held: {vals!r:.300}')
+                if raw_duplicates(obj):
+                    fail('C02.unique', f'duplicate labels held: {vals!r:.300}')
+                # labels that differ for Python (datetime.datetime vs numpy.datetime64 of the same instant) but not for the
+                # model's normalisation: the index is unique by the library's own notion; the model cannot follow it
+                self.stats['unmodelled:labels-equal-only-after-normalisation'] += 1
+                self.ents.pop(e.h, None)
+                return
             st, rv = call(lambda: [norm_t(t) for t in reversed(obj)])
             if st == 'raise' or rv != exp[::-1]:
                 fail(o, f'reversed {rv!r:.300}')
